@@ -69,6 +69,43 @@ void ProtoRun::check_after_death_output(int role, const Bytes &out) {
     }
 }
 
+
+// vecgrow: a length-prefixed vector ANYWHERE inside a plaintext handshake message gets N more bytes (copies of its last two bytes, so list
+// items stay plausible), its own length field, the handshake length, the DTLS fragment length and the record length adjusted; enclosing
+// vectors are not (some results are inconsistent messages, others are simply longer lists than any honest peer sends)
+static bool apply_vecgrow(Bytes &ub, bool dtls, int64_t aa, int64_t ab) {
+    size_t hdr = dtls ? 13 : 5, hh = dtls ? 12 : 4;
+    if (ub.size() < hdr + hh || ub[0] != 22) { return false; }
+    size_t blen = ub.size() - hdr;
+    size_t hslen = (size_t) ub[hdr + 1] << 16 | (size_t) ub[hdr + 2] << 8 | ub[hdr + 3];
+    if (hslen + hh != blen) { return false; }
+    size_t body0 = hdr + hh, bend = ub.size();
+    struct Cand { size_t off, w, v; }; std::vector<Cand> cands;
+    for (size_t off = body0; off + 1 < bend; off++) {
+        for (size_t w = 1; w <= 2; w++) {
+            if (off + w > bend) { continue; }
+            size_t v = 0; for (size_t i = 0; i < w; i++) { v = v << 8 | ub[off + i]; }
+            if (v >= 2 && off + w + v <= bend) { cands.push_back({ off, w, v }); }
+        }
+    }
+    if (cands.empty()) { return false; }
+    Cand c = cands[(size_t) ((uint64_t) ab % cands.size())];
+    size_t n = ((uint64_t) aa % 4 == 0) ? 2000 + 2 * (size_t) ((uint64_t) (aa / 4) % 7000) : 2 + 2 * (size_t) ((uint64_t) (aa / 4) % 120);
+    size_t maxrec = 16384; if (blen + n > maxrec) { n = blen < maxrec ? ((maxrec - blen) & ~(size_t) 1) : 0; }
+    if (c.w == 1 && c.v + n > 255) { n = (255 - c.v) & ~(size_t) 1; }
+    if (c.w == 2 && c.v + n > 65535) { n = 0; }
+    if (n == 0) { return false; }
+    size_t at = c.off + c.w + c.v;
+    Bytes ins(n); for (size_t i = 0; i < n; i++) { ins[i] = ub[at - 2 + (i & 1)]; }
+    ub.insert(ub.begin() + (long) at, ins.begin(), ins.end());
+    auto put = [&](size_t off, size_t w, size_t v) { for (size_t i = 0; i < w; i++) { ub[off + i] = (unsigned char) (v >> (8 * (w - 1 - i))); } };
+    put(c.off, c.w, c.v + n); put(hdr + 1, 3, hslen + n);
+    if (dtls) { put(hdr + 9, 3, hslen + n); }
+    size_t nl = ub.size() - hdr; size_t lo = dtls ? 11 : 3;
+    ub[lo] = (unsigned char) (nl >> 8); ub[lo + 1] = (unsigned char) nl;
+    return true;
+}
+
 void ProtoRun::filter_record(Record &r, std::vector<Bytes> &out) {
     (void) out;   // everything goes through our own unit queue
     int dir = r.dir;
@@ -199,43 +236,10 @@ void ProtoRun::filter_record(Record &r, std::vector<Bytes> &out) {
                 }
             }
         } else if (a.kind == "vecgrow") {
-            // a length-prefixed vector ANYWHERE inside a plaintext handshake message gets N more bytes (copies of its last two bytes, so list
-            // items stay plausible), its own length field, the handshake length, the DTLS fragment length and the record length adjusted;
-            // enclosing vectors are not (some results are inconsistent messages, others are simply longer lists than any honest peer sends)
-            size_t hh = pc.dtls() ? 12 : 4;
-            bool plain_hs = r.type == 22 && blen >= hh && !ccs_emitted[dir] && (!pc.dtls() || r.epoch == 0);
-            if (plain_hs) {
-                size_t hslen = (size_t) u.b[hdr + 1] << 16 | (size_t) u.b[hdr + 2] << 8 | u.b[hdr + 3];
-                if (hslen + hh == blen) {
-                    size_t body0 = hdr + hh, bend = u.b.size();
-                    struct Cand { size_t off, w, v; }; std::vector<Cand> cands;
-                    for (size_t off = body0; off + 1 < bend; off++) {
-                        for (size_t w = 1; w <= 2; w++) {
-                            if (off + w > bend) { continue; }
-                            size_t v = 0; for (size_t i = 0; i < w; i++) { v = v << 8 | u.b[off + i]; }
-                            if (v >= 2 && off + w + v <= bend) { cands.push_back({ off, w, v }); }
-                        }
-                    }
-                    if (!cands.empty()) {
-                        Cand c = cands[(size_t) ((uint64_t) a.b % cands.size())];
-                        size_t n = ((uint64_t) a.a % 4 == 0) ? 2000 + 2 * (size_t) ((uint64_t) (a.a / 4) % 7000) : 2 + 2 * (size_t) ((uint64_t) (a.a / 4) % 120);
-                        size_t maxrec = 16384; if (blen + n > maxrec) { n = blen < maxrec ? ((maxrec - blen) & ~(size_t) 1) : 0; }
-                        if (c.w == 1 && c.v + n > 255) { n = (255 - c.v) & ~(size_t) 1; }
-                        if (c.w == 2 && c.v + n > 65535) { n = 0; }
-                        if (n > 0) {
-                            size_t at = c.off + c.w + c.v;
-                            Bytes ins(n); for (size_t i = 0; i < n; i++) { ins[i] = u.b[at - 2 + (i & 1)]; }
-                            u.b.insert(u.b.begin() + (long) at, ins.begin(), ins.end());
-                            auto put = [&](size_t off, size_t w, size_t v) { for (size_t i = 0; i < w; i++) { u.b[off + i] = (unsigned char) (v >> (8 * (w - 1 - i))); } };
-                            put(c.off, c.w, c.v + n); put(hdr + 1, 3, hslen + n);
-                            if (pc.dtls()) { put(hdr + 9, 3, hslen + n); }
-                            size_t nl = u.b.size() - hdr; size_t lo = pc.dtls() ? 11 : 3;
-                            u.b[lo] = (unsigned char) (nl >> 8); u.b[lo + 1] = (unsigned char) nl;
-                            u.tampered = true; u.kind = a.kind; u.is_mod = is_mod;
-                            obs.counters["fault.vecgrow_applied"]++;
-                        }
-                    }
-                }
+            bool plain_hs = r.type == 22 && !ccs_emitted[dir] && (!pc.dtls() || r.epoch == 0);
+            if (plain_hs && apply_vecgrow(u.b, pc.dtls(), a.a, a.b)) {
+                u.tampered = true; u.kind = a.kind; u.is_mod = is_mod;
+                obs.counters["fault.vecgrow_applied"]++;
             }
         } else if (a.kind == "refrag") {
             // split a plaintext TLS handshake record into two records at a seeded offset (legal: handshake messages may span records)
@@ -432,6 +436,17 @@ Bytes ProtoRun::craft(int dir, const Op &op, bool &is_mod, std::string &kind) {
         Record r = cap[(uint64_t) op.b % cap.size()];
         if (k == "relabel") { static const unsigned char T[] = { 23, 22, 21, 20 }; unsigned char nt = T[(uint64_t) op.c % 4]; if (nt == r.raw[0]) { nt = (unsigned char) (nt == 23 ? 22 : 23); } r.raw[0] = nt; }
         return r.raw;
+    }
+    if (k == "regrow") {
+        // a copy of an earlier plaintext handshake record of this direction with one of its vectors made longer (e.g. a second
+        // HelloVerifyRequest / ServerHello / CertificateRequest that repeats the first one's contents and then goes on)
+        auto &cap = w.captured[dir];
+        if (cap.empty()) { return Bytes(); }
+        Bytes ub = cap[(uint64_t) op.b % cap.size()].raw;
+        if (!apply_vecgrow(ub, dtls, (op.c & 1) ? 0 : 4 * (int64_t) (1 + op.c), op.d)) { return Bytes(); }
+        if (dtls && ub.size() > 11) { ub[10] ^= 0x40; }     // another record sequence number, so that it is not dropped as a replay
+        if (dtls && (op.c & 2) && ub.size() > 13 + 5) { ub[13 + 5] = (unsigned char) (ub[13 + 5] + 1); }   // ... and the next handshake message sequence number, so that it is not taken for a retransmission
+        return ub;
     }
     if (k == "reflect") {
         auto &cap = w.captured[1 - dir];
